@@ -816,6 +816,11 @@ def run(ctx):
                          'duplicate/empty/root-shadowing names), five opaque leaf types, non-union roots; per type: root name, entrypoint list, '
                          'to_parameters/from_parameters of every leaf value, from/to of every listed entrypoint with every argument, '
                          'ill-typed and unknown-entrypoint calls; thorough = all annotation subsets of all shapes with <= 6 leaves. '
+                         'Random types (and half of the corpus) are decorated: `:type` names (fresh / equal to entrypoint names) on 65 % of the nodes, several '
+                         'annotations on a node in random order with @var / odd-prefix / empty noise, one node with two % or two : annotations (rejected); '
+                         '15 % of the random leaves are pair / option / list types with annotated unions below them (or leaves Micheline.match refuses). '
+                         'Per accepted type additionally: from_python_object({e: object of a}) for up to 4 listed entrypoints, the string form for unit '
+                         'entrypoints, three names that are no entrypoints (type names, generated display names), to_python_object of two full values. '
                          'non-trivial = union type with at least one annotated node')
     ctx.assumptions += [
         'Spec.entrypoints / spec_entrypoints are my transcription of Tezos\' rule: every annotated union branch (inner or leaf, any depth) is an '
@@ -875,7 +880,7 @@ def run(ctx):
         entry['calls'] = calls
         for n, a, _ in calls:
             lines.append('from ' + toks + ' ' + ann_tok(n) + ' ' + ' '.join(val_toks(a)))
-        if ti % 3 != 2 or mode != 'plain':
+        if (ti % 8 == 0 if (ctx.tier == 'thorough' and origin.startswith('exhaustive')) else (ti % 3 != 2 or mode != 'plain')):
             for ln, kind, payload in python_object_cases(ctx, entry):
                 entry['py'].append((len(lines), kind, payload))
                 lines.append(ln)
